@@ -51,6 +51,8 @@ def cval(v):
         return '(VL %s)' % clist(v[1], cval)
     if t == 't':
         return '(VT %s)' % clist(v[1], cval)
+    if t == 'n':
+        return 'VNone'
     raise ValueError(v)
 
 
@@ -66,8 +68,19 @@ BOPS = {'add': 'BAdd', 'sub': 'BSub', 'mul': 'BMul', 'div': 'BDiv', 'floordiv': 
         'min': 'BMin', 'max': 'BMax', 'lt': 'BLt', 'le': 'BLe', 'gt': 'BGt', 'ge': 'BGe', 'eq': 'BEq', 'ne': 'BNe'}
 UOPS = {'neg': 'UNeg', 'abs': 'UAbs'}
 NOPS = {'clip': 'NClip', 'wrap': 'NWrap', 'fold': 'NFold'}
-FNS = {'inc': 'FInc', 'dbl': 'FDbl', 'neg': 'FNeg', 'pair': 'FPair', 'even': 'FEven', 'lt3': 'FLt3', 'pos': 'FPos'}
+FNS = {'boom': 'FBoom', 'inc': 'FInc', 'dbl': 'FDbl', 'neg': 'FNeg', 'pair': 'FPair', 'even': 'FEven', 'lt3': 'FLt3', 'pos': 'FPos'}
 FKS = {'collect': 'KCollect', 'select': 'KSelect', 'reject': 'KReject'}
+
+
+def place_subs(e):
+    """Place indexes into every item that is a list or a tuple -- also a plain list/tuple VALUE."""
+    out = []
+    for sub, plain in zip(e[1], e[4]):
+        if plain and sub[0][0] == 'val' and sub[0][1][0] in 'lt':
+            out.append([V(x) for x in sub[0][1][1]])
+        else:
+            out.append(sub)
+    return out
 
 
 def cexpr(e):
@@ -81,7 +94,7 @@ def cexpr(e):
     if k == 'Pn':
         return '(Pn %s %s)' % (C(e[1]), creps(e[2]))
     if k == 'Place':
-        return '(Place %s %s %s)' % (clist([L(s) for s in e[1]]), creps(e[2]), cz(e[3]))
+        return '(Place %s %s %s)' % (clist([L(s) for s in place_subs(e)]), creps(e[2]), cz(e[3]))
     if k in ('Plen', 'Pdrop'):
         return '(%s %s %s)' % (k, C(e[1]), cz(e[2]))
     if k in ('Pstutter', 'Pclump', 'Pflatten'):
@@ -135,6 +148,8 @@ def show(e):
             return 'True' if v[1] else 'False'
         if t == 'l':
             return '[' + ', '.join(sv(x) for x in v[1]) + ']'
+        if t == 'n':
+            return 'None'
         return '(' + ', '.join(sv(x) for x in v[1]) + ',)'
     r = lambda x: 'inf' if x == 'inf' else str(x)
     L = lambda xs: '[' + ', '.join(S(x) for x in xs) + ']'
@@ -230,9 +245,9 @@ class Gen:
     def leaf(self, sort, lo=0, hi=3):
         r = self.rng
         if sort == 'int':
-            return vi(r.randint(-6, 9))
+            return vi(0) if r.random() < 0.12 else vi(r.randint(-6, 9))
         if sort == 'float':
-            return vf(Fraction(r.randint(-24, 36), r.choice([1, 2, 4])))
+            return vf(0) if r.random() < 0.12 else vf(Fraction(r.randint(-24, 36), r.choice([1, 2, 4])))
         if sort == 'num':
             return self.leaf(r.choice(['int', 'int', 'float']))
         if sort == 'small':
@@ -240,8 +255,11 @@ class Gen:
         if sort == 'bool':
             return ['b', r.randint(0, 1)]
         if sort == 'list':
-            return ['l', [self.leaf('int') for _ in range(r.randint(1, 3))]]
-        return self.leaf(r.choice(['int', 'float', 'list']))
+            return ['l', [self.leaf('int') for _ in range(r.randint(0, 3))]]
+        # 'any': falsy values of every kind must be yielded like any other value
+        return r.choice([lambda: self.leaf('int'), lambda: self.leaf('float'), lambda: self.leaf('list'),
+                         lambda: ['n'], lambda: ['b', 0], lambda: vi(0), lambda: vf(0), lambda: ['l', []],
+                         lambda: ['t', []], lambda: ['t', [vi(0), ['n']]], lambda: ['b', 1]])()
 
     def reps(self, allow_inf):
         r = self.rng
@@ -281,13 +299,29 @@ class Gen:
         if sort == 'bool':
             menu = ['Pseq', 'Pser', 'Pn', 'Plen', 'Pcmp', 'Pcmp', 'Ppred', 'Pif', 'Pseed']
         if sort == 'list':
-            menu = ['Pseq', 'Pn', 'Plen', 'Pclump', 'Pclump', 'Ppair', 'Pstutter', 'Pdrop', 'Pseed']
-        if sort == 'any':
+            menu = ['Pseq', 'Pn', 'Plen', 'Pclump', 'Pclump', 'Ppair', 'Pstutter', 'Pdrop', 'Pseed', 'Pflat0', 'Pclump0']
+        if sort == 'any' and r.random() < 0.7:
             s2 = r.choice(['num', 'num', 'int', 'list', 'tuple'])
             if s2 == 'tuple':
                 return self._tuple(d, lo, hi)
             return self._gen(s2, d, mode, lo, hi)
+        if sort == 'any':
+            menu = ['Pseq', 'Pseq', 'Pser', 'Pn', 'Place', 'Plen', 'Pdrop', 'Pstutter', 'Pswitch', 'Pswitch1', 'Pif',
+                    'Pslide', 'Pseed', 'Pdup']
+        if sort != 'any' and r.random() < 0.06:
+            menu = ['Pdup']
         k = r.choice(menu)
+        if k == 'Pdup':
+            # ONE sub-expression used at two places (the runner may build it as one shared object)
+            x, fx, mx = G(sort, mode='emb', need_fin=True)
+            kk = r.choice(['seq', 'seq', 'tuple', 'bin', 'sw1'] if arith else ['seq', 'seq', 'sw1'])
+            if kk == 'seq':
+                return ['Pseq', [x, V(self.leaf(sort, lo, hi)), x], r.choice([1, 2]), r.choice([0, 1])], True, 2 * mx + 1
+            if kk == 'bin':
+                return ['Pbinop', r.choice(['sub', 'add', 'mul']), x, ['Pseq', [x, x], 1, 0]], True, mx
+            if kk == 'sw1':
+                return ['Pswitch1', [x, x], ['Pseq', [V(vi(0)), V(vi(1)), V(vi(0)), V(vi(1))], 1, 0]], True, 0
+            return ['Pseq', [x, x], 1, 0], True, 2 * mx
         if k == 'Pseed':
             nseed = r.randint(1, 3)
             const_seed = r.random() < 0.15
@@ -359,6 +393,15 @@ class Gen:
                 return ['Pclump', p, V(vi(r.randint(1, 3)))], fin, min(mn, 1)
             q, finq, mnq = self.gen('small', d - 1, 'str', lo=1, hi=3)
             return ['Pclump', p, q], fin or finq, min(mn, mnq, 1)
+        if k == 'Pflat0':
+            # levels = 0 is the identity on the values
+            p_, fin, mn = self.gen('list', d - 1, 'str')
+            return ['Pflatten', p_, V(vi(0))], fin, mn
+        if k == 'Pclump0':
+            # n = 0: empty groups for ever, the source is never pulled
+            p_, fin, mn = self.gen(r.choice(['int', 'any']), d - 1, 'str')
+            n = r.randint(0, 3)
+            return ['Plen', ['Pclump', p_, V(r.choice([vi(0), vf(0), ['b', 0]]))], n], True, n
         if k == 'Ppair':
             p, fin, mn = self.gen(r.choice(['int', 'num']), d - 1, 'str')
             return ['Pfun', 'collect', 'pair', p], fin, mn
@@ -368,14 +411,16 @@ class Gen:
                 p, mn = ['Pclump', p, V(vi(r.randint(1, 3)))], min(mn, 1)
             else:
                 p = ['Pfun', 'collect', 'pair', p]
-            return ['Pflatten', p, V(vi(r.choice([1, 1, 2])))], fin, mn
+            return ['Pflatten', p, V(vi(r.choice([1, 1, 2])))], fin, mn   # levels 0 yields lists: see the 'list' sort
         if k == 'Pdiff':
             p, fin, mn = G(sort)
             return ['Pdiff', p], fin, (max(0, mn - 1) if mn < INFN else INFN)
         if k == 'Pconst':
             p, fin, mn = G(sort)
             total = self.leaf('float') if sort == 'float' else (vi(r.randint(0, 12)) if sort == 'int' else self.leaf('num'))
-            tol = vf(Fraction(1, r.choice([1024, 8])))
+            tol = r.choice([vf(Fraction(1, 1024)), vf(Fraction(1, 8)), vi(0), vf(0)])
+            if r.random() < 0.15:
+                total = vi(0) if sort != 'float' else vf(0)
             return ['Pconst', p, total, tol], fin, 1
         if k == 'Pcollect':
             p, fin, mn = G(sort)
@@ -393,6 +438,11 @@ class Gen:
             # keep lo < hi: lo := -|lo| - 1 style shifts are expressed with constants
             lo_ = ['Pbinop', 'sub', ['Punop', 'neg', ['Punop', 'abs', lo_]], V(self.leaf(s) if False else (vi(1) if s == 'int' else vf(1)))]
             hi_ = ['Pbinop', 'add', ['Punop', 'abs', hi_], V(vi(1) if s == 'int' else vf(Fraction(1, 2)))]
+            z = r.random()
+            if z < 0.15:
+                lo_, fl, ml = V(vi(0) if s == 'int' else vf(0)), False, INFN       # lo = 0 < hi
+            elif z < 0.3:
+                hi_, fh, mh = V(vi(0) if s == 'int' else vf(0)), False, INFN       # lo < hi = 0
             if k == 'Pwrap':
                 return ['Pwrap', p, lo_, hi_], fin or fl or fh, min(mn, ml, mh)
             return ['Pnarop', r.choice(['clip', 'wrap', 'fold']), p, lo_, hi_], fin or fl or fh, min(mn, ml, mh)
@@ -504,7 +554,7 @@ class Gen:
         d = r.randint(0, max(1, self.maxdepth - 2))
         p, fin, mn = self.gen('int', d, 'str', need_fin=False)
         k = r.choice(['float_count', 'float_index', 'div_zero', 'list_sub', 'list_neg', 'empty', 'list_diff',
-                      'place_empty', 'float_clump_ok', 'list_const', 'float_len'])
+                      'place_empty', 'float_clump_ok', 'list_const', 'float_len', 'boom', 'boom_seed', 'err_seed'])
         if k == 'float_count':
             e = ['Pstutter', p, V(vf(Fraction(3, 2)))]
         elif k == 'float_index':
@@ -532,6 +582,15 @@ class Gen:
             e = ['Place', [[p], []], 2, 0, [1, 0]]
         elif k == 'float_clump_ok':
             e = ['Pclump', p, V(vf(Fraction(5, 2)))]        # int(2.5) = 2: accepted
+        elif k == 'boom':
+            # a BaseException (not an Exception) raised after a few values
+            e = ['Pseq', [V(vi(1)), ['Pfun', 'collect', 'boom', p], V(vi(2))], 2, 0]
+        elif k in ('boom_seed', 'err_seed'):
+            # ... inside the routine that Pseed runs: every exit path must restore the thread state
+            bad = ['Pfun', 'collect', 'boom', p] if k == 'boom_seed' else ['Punop', 'neg', V(['l', [vi(1)]])]
+            e = ['Pseed', ['Pseq', [V(vi(0)), V(vi(1))], 1, 0], [r.choice(['Prand', 'Pxrand']), [V(vi(5)), bad, p], 4]]
+            if r.random() < 0.5:
+                e = ['Pseq', [V(vi(9)), e], 1, 0]
         elif k == 'list_const':
             e = ['Pconst', ['Pseq', [p, V(['l', [vi(1)]])], 1, 0], vi(50), vf(Fraction(1, 1024))]
         else:
@@ -578,6 +637,57 @@ def directed():
         ['Pwrap', S([1, 5, 9, -3]), I(2), I(6)],
         ['Pseq', [['Plen', S([1]), 0], I(5)], 1, 0],
     ]
+    # --- zero / falsy arguments and values (exact results, type tags included)
+    NONE, FALSE, ZF = V(['n']), V(['b', 0]), V(vf(0))
+    falsy = ['Pseq', [NONE, I(0), FALSE, V(['l', []]), V(['t', []]), ZF, I(5)], 1, 0]
+    out += [
+        falsy, ['Pstutter', falsy, I(2)], ['Pclump', falsy, I(2)], ['Pdrop', falsy, 0], ['Plen', falsy, 7],
+        ['Ptuple', [falsy, ['Pseq', [FALSE, NONE, I(0)], 3, 0]], 1],
+        ['Pswitch1', [falsy, ['Pseq', [NONE, I(0)], 1, 0]], S([0, 1, 0, 1, 0, 0])],
+        ['Pswitch', [falsy, NONE, I(0)], S([0, 1, 2])],
+        ['Pif', falsy, I(1), I(2)], ['Pif', S([1, 0, 1]), NONE, FALSE],
+        ['Pflatten', falsy, I(1)], ['Pflatten', ['Pseq', [V(['l', [vi(1), ['l', [vi(2)]]]]), I(3)], 1, 0], I(0)],
+        ['Pfun', 'collect', 'pair', falsy], ['Pslide', [NONE, I(0), FALSE, I(4)], I(2), I(1), 0, 1, 3],
+        ['Pseed', S([0, 0]), ['Prand', [NONE, I(0), FALSE], 5]], ['Pseed', S([0]), ['Pxrand', [I(0), NONE], 6]],
+        ['Pseed', S([0]), ['Pwhite', I(0), I(0), 3]], ['Pseed', S([0, 3]), ['Pwhite', I(0), I(4), 0]],
+        ['Pn', falsy, 0], S([1, 2], 0), ['Pser', [I(1), I(2)], 0, 0], ['Place', [[I(1)], [I(2), I(3)]], 0, 0, [1, 0]],
+        ['Pstutter', S([1, 2]), I(0)], ['Pstutter', S([1, 2]), FALSE], ['Plen', ['Pclump', S([1, 2]), I(0)], 3],
+        ['Plen', ['Pclump', S([1, 2]), ZF], 2], ['Pseries', vi(0), I(0), 3], ['Pseries', vf(0), ZF, 0],
+        ['Pgeom', vi(0), I(0), 3], ['Pgeom', vi(3), I(0), 3],
+        ['Pwrap', S([1, 5, -3, 0]), I(0), I(3)], ['Pwrap', S([1, 5, -3, 0]), I(-3), I(0)],
+        ['Pnarop', 'clip', S([1, 5, -3, 0]), I(0), I(3)], ['Pnarop', 'fold', S([1, 5, -3, 0]), I(-3), I(0)],
+        ['Pconst', S([1, 2, 4, 5]), vi(7), vi(0)], ['Pconst', S([1, 2, 4, 5]), vi(7), vf(0)],
+        ['Pconst', S([1, 2]), vi(0), vf(Fraction(1, 1024))], ['Pconst', S([0, 0, 0]), vi(0), vi(0)],
+        ['Pslide', [I(1), I(2), I(3)], I(0), I(1), 0, 1, 3], ['Pslide', [I(1), I(2), I(3)], I(2), I(0), 0, 1, 3],
+        ['Ptuple', [S([1, 2])], 0], ['Pbinop', 'mul', S([0, 1, 2]), I(0)], ['Pbinop', 'eq', S([0, 1]), FALSE],
+    ]
+    # --- both ends of every range
+    out += [
+        ['Pdrop', S([1, 2, 3]), 3], ['Pdrop', S([1, 2, 3]), 4], ['Plen', S([1, 2, 3]), 3], ['Plen', S([1, 2, 3]), 4],
+        ['Plen', S([1, 2, 3]), 1], ['Pdrop', S([1, 2, 3]), 1], ['Pclump', S([1, 2, 3]), I(3)], ['Pclump', S([1, 2, 3]), I(4)],
+        ['Pclump', S([1, 2, 3, 4]), I(3)], ['Pclump', S([1]), I(1)], ['Pseries', vi(5), I(1), 1], ['Pgeom', vi(5), I(2), 1],
+        ['Pconst', S([1, 2, 4, 5]), vi(7), vf(Fraction(1, 1024))], ['Pconst', S([1, 2, 4, 5]), vi(8), vf(Fraction(1, 1024))],
+        ['Pconst', S([1, 2, 4, 5]), vi(12), vf(Fraction(1, 1024))], ['Pconst', S([1, 2, 4, 5]), vi(13), vf(Fraction(1, 1024))],
+        ['Pslide', [I(1), I(2), I(3)], I(3), I(1), 0, 0, 3], ['Pslide', [I(1), I(2), I(3)], I(1), I(1), 2, 0, 3],
+        ['Pslide', [I(1), I(2), I(3)], I(1), I(-1), 0, 0, 3], ['Pslide', [I(1), I(2), I(3)], I(4), I(3), -3, 1, 2],
+        ['Pswitch', [I(1), I(2), I(3)], S([2, 3, -1, -3, -4])], ['Pswitch1', [I(1), I(2), I(3)], S([2, 3, -1, -3, -4])],
+        S([7], 3, 1), ['Pser', [I(7)], 3, 1], ['Pdiff', S([1, 2])], ['Pseed', S([4]), ['Pxrand', [I(9)], 3]],
+        ['Pfun', 'select', 'lt3', S([3, 2, 3])], ['Pfun', 'reject', 'lt3', S([3, 2, 3])],
+    ]
+    # --- pull order: stream i ends by an exception exactly when stream j ends normally (and vice versa);
+    # the ending tells which one was pulled first
+    ERR = ['Pseq', [I(1), ['Punop', 'neg', V(['l', [vi(1)]])]], 1, 0]      # 1, then TypeError
+    END = S([1])                                                          # 1, then StopStream
+    for a, b in ((ERR, END), (END, ERR)):
+        out += [['Pbinop', 'sub', a, b], ['Pstutter', a, b], ['Pclump', a, b], ['Pflatten', a, b],
+                ['Pnarop', 'clip', a, b, I(5)], ['Pnarop', 'clip', a, I(0), b], ['Pnarop', 'clip', I(1), a, b],
+                ['Pwrap', a, b, I(5)], ['Pwrap', a, I(0), b], ['Pwrap', I(1), a, b],
+                ['Ptuple', [a, b], 1], ['Ptuple', [I(0), a, b], 2], ['Pif', a, b, b], ['Pif', S([1, 1]), a, b],
+                ['Pif', S([0, 0]), b, a], ['Pseries', vi(0), a, 1], ['Pslide', [I(1), I(2)], a, b, 0, 1, 3],
+                ['Pslide', [I(1), I(2)], b, a, 0, 1, 3], ['Pseed', S([2]), ['Pwhite', a, b, 3]]]
+    # non-commutative operators with a plain value on either side (reflected methods)
+    for op in ('sub', 'div', 'floordiv', 'mod', 'lt', 'ge', 'min', 'max'):
+        out += [['Pbinop', op, I(8), S([1, 2, 4])], ['Pbinop', op, S([1, 2, 4]), I(8)]]
     return out
 
 
@@ -663,10 +773,12 @@ def make_cases(ctx):
     for c in cases:
         m = ctx.rng.randint(4, 2 * c['n'])
         c['sched'] = [ctx.rng.randint(0, 1) for _ in range(m)]
+        c['share'] = ctx.rng.random() < 0.5        # identical sub-expressions built as ONE object
     return cases
 
 
 CTOR = {}
+RERUN = []
 
 
 def run_impl(ctx, cases, tag=''):
@@ -676,6 +788,7 @@ def run_impl(ctx, cases, tag=''):
         r = ctx.impl('c13_patterns', {'cases': cases[i:i + chunk]}, timeout=900)
         out.extend(r['out'])
         CTOR.update(r.get('ctor_empty', {}))
+        RERUN.extend((cases[i + j]['expr'] for j in r.get('rerun_diff', [])))
     return out
 
 
@@ -684,6 +797,11 @@ def correspond(ctx):
     cases = make_cases(ctx)
     out = run_impl(ctx, cases)
     items, owner = [], []          # Coq items and (case index, which observation)
+    for e in RERUN[:3]:
+        c.failures.append(Failure('correspondence', 'the same case gives another result when run again later in the same process: %s' % show(e),
+                                  signature='C13:process_state', found_input=True, theorem='streams_independent',
+                                  replay={'expr': e, 'show': show(e)}))
+    del RERUN[:]
     for cls, what in sorted(CTOR.items()):
         c.count('ctor_empty:%s:%s' % (cls, what))
         if what != 'ValueError':
@@ -705,12 +823,22 @@ def correspond(ctx):
         it_ = canon_end(o['iter'])
         c.count('end:' + it_[1])
         # observations that must agree among themselves on the implementation (immutability)
-        for name in ('next', 'again'):
+        for name in ('next', 'again', 'embed', 'reset'):
             if canon_end(o[name]) != it_:
                 c.failures.append(Failure(
                     'correspondence', 'streams of one pattern differ (%s vs iter) for %s: %s vs %s' % (name, show(e), o[name], o['iter']),
                     signature='C13:streams_differ', found_input=True, theorem='streams_independent',
                     replay={'expr': e, 'show': show(e), 'iter': o['iter'], name: o[name]}))
+        if o.get('leaked_tt'):
+            c.failures.append(Failure('correspondence', 'the current time thread is not restored after %s (left: %s)' % (show(e), o['leaked_tt']),
+                                      signature='C13:leaked_current_tt', found_input=True, theorem='streams_independent',
+                                      replay={'expr': e, 'show': show(e), 'left': o['leaked_tt']}))
+        if o.get('args_mutated'):
+            c.failures.append(Failure('correspondence', 'a list handed to a pattern constructor was changed: %s' % show(e),
+                                      signature='C13:argument_mutated', found_input=True, theorem='streams_independent',
+                                      replay={'expr': e, 'show': show(e)}))
+        if k.get('share'):
+            c.count('built_with_shared_subobjects')
         if o.get('mutated'):
             c.failures.append(Failure('correspondence', 'pattern object mutated by its streams: %s' % show(e),
                                       signature='C13:pattern_mutated', found_input=True, theorem='streams_independent',
